@@ -23,12 +23,19 @@
 (*   setbool(var,val) setnot(var,src) if(test,body,orelse) while(var,body) *)
 (*   test kinds: opaque(id) | in(var, vals)                                *)
 (***************************************************************************)
-EXTENDS Naturals, Integers, Sequences, FiniteSets, TLC, Json, IOUtils
+EXTENDS CodegenImpl, Json, IOUtils
 
 Cases == JsonDeserialize(IOEnv.CASES)
+\* MODE = "real": the code is the skeleton extracted from the real SCFG2AST output.
+\* MODE = "impl": the code is Code(H) - the transcription of the code generator (CodegenImpl.tla) applied to the recorded
+\*                restructured hierarchy; `drift` says whether it differs from the real output (conformance of the Impl layer).
+Mode == IOEnv.MODE
 
-VARIABLES tid, blk, idx, stk, env, rv, bad
-vars == <<tid, blk, idx, stk, env, rv, bad>>
+VARIABLES tid, blk, idx, stk, env, rv, bad, drift
+vars == <<tid, blk, idx, stk, env, rv, bad, drift>>
+
+Generated(t) == Code(Cases[t].H, Cases[t].root, Cases[t].flat)
+CodeOf(t) == IF Mode = "impl" THEN Generated(t).code ELSE Cases[t].code
 
 Flat == Cases[tid].flat
 Fuel == 400
@@ -89,10 +96,14 @@ TakeBranch(s, d) == LET f == Top(s) it == f.code[f.pc] IN Push(Bump(s), IF d THE
 EmptyEnv == [x \in {} |-> 0]
 Init == /\ tid \in 1..Len(Cases)
         /\ blk = "0" /\ idx = 1
-        /\ stk = Push(<<>>, Cases[tid].code)
-        /\ env = EmptyEnv /\ rv = FALSE /\ bad = "ok"
+        /\ stk = Push(<<>>, CodeOf(tid))
+        /\ env = EmptyEnv /\ rv = FALSE
+        /\ bad = IF Mode = "impl" /\ Generated(tid).fail THEN "refused" ELSE "ok"
+        /\ drift = IF Mode # "impl" THEN FALSE
+                   ELSE IF Cases[tid].refused THEN ~Generated(tid).fail
+                   ELSE (Generated(tid).fail \/ Generated(tid).code # Cases[tid].code)
 
-Stuck(why) == bad' = why /\ UNCHANGED <<tid, blk, idx, stk, env, rv>>
+Stuck(why) == bad' = why /\ UNCHANGED <<tid, blk, idx, stk, env, rv, drift>>
 Next ==
   /\ bad = "ok"
   /\ LET fa == FlatNext(blk, idx, Fuel)
@@ -106,13 +117,14 @@ Next ==
              \E d \in BOOLEAN :
                 /\ blk' = Flat[fa[2]].jt[IF d THEN 1 ELSE 2] /\ idx' = 1
                 /\ stk' = TakeBranch(ca[2], d) /\ env' = ca[3] /\ rv' = ca[4]
-                /\ UNCHANGED <<tid, bad>>
+                /\ UNCHANGED <<tid, bad, drift>>
         ELSE IF fe[1] = "R" THEN
              \* the flat graph stops here; the generated code must reach the end without another visible action
              LET rest == CodeNext(ca[2], ca[3], ca[4], Fuel) IN
              IF rest[1][1] = "END" THEN /\ blk' = fa[2] /\ idx' = Len(Flat[fa[2]].units) + 1000 /\ stk' = <<>> /\ env' = ca[3] /\ rv' = ca[4]
-                                        /\ UNCHANGED <<tid, bad>>
+                                        /\ UNCHANGED <<tid, bad, drift>>
              ELSE Stuck(IF rest[1][1] = "BAD" THEN rest[1][2] ELSE "runs-on-after-return")
-        ELSE /\ blk' = fa[2] /\ idx' = fa[3] /\ stk' = ca[2] /\ env' = ca[3] /\ rv' = ca[4] /\ UNCHANGED <<tid, bad>>
-SamePaths == bad = "ok"
+        ELSE /\ blk' = fa[2] /\ idx' = fa[3] /\ stk' = ca[2] /\ env' = ca[3] /\ rv' = ca[4] /\ UNCHANGED <<tid, bad, drift>>
+SamePaths == bad \in {"ok", "refused"}
+NoDrift == ~drift
 =============================================================================
